@@ -105,7 +105,15 @@ def check(run, ctx):
         (run.ok(R2, f"{pkg} _should_analyze", "language, content, enabled, ignore") if not miss else run.finding(R2, f"{pkg}._should_analyze", f"missing:{miss}", f"_should_analyze lacks the {miss} test its siblings have", f.loc))
         chk = repo.func(f"src.linters.{pkg}.linter.{rule}._build_violations")
         comp = next((n for n in ast.walk(chk.node) if isinstance(n, ast.ListComp)), None)
-        ok = comp is not None and comp.generators[0].ifs and "not" in ast.unparse(comp.generators[0].ifs[0]) and "_should_skip_call(call, config)" in ast.unparse(comp.generators[0].ifs[0]) and ast.unparse(comp.generators[0].iter) == "calls"
+        # one violation per call of the list parameter that _should_skip_call(<that call>, <config>) lets through (names are free)
+        ok = False
+        if comp is not None and len(comp.generators) == 1 and len(comp.generators[0].ifs) == 1 and isinstance(comp.generators[0].target, ast.Name):
+            g0 = comp.generators[0]
+            cond = g0.ifs[0]
+            skip = cond.operand if isinstance(cond, ast.UnaryOp) and isinstance(cond.op, ast.Not) else None
+            pars = {a.arg for a in chk.node.args.args}
+            ok = (skip is not None and is_call_named(skip, "_should_skip_call") and len(skip.args) == 2 and isinstance(skip.args[0], ast.Name) and skip.args[0].id == g0.target.id
+                  and isinstance(g0.iter, ast.Name) and g0.iter.id in pars)
         (run.ok(R2, f"{pkg} _build_violations", "one violation per non-skipped call") if ok else run.finding(R2, f"{pkg}._build_violations", "filter", "violations are not built for exactly the calls that _should_skip_call lets through", chk.loc))
 
     R3 = run.rule("R3", "is_in_test = self.is_inside_test(<the call node>) via rust_context.is_inside_test in all three analyzers and the Rust magic-number path", floor=5)
@@ -150,8 +158,10 @@ def check(run, ctx):
     fr = repo.func("src.linters.unwrap_abuse.rust_analyzer.RustUnwrapAnalyzer._find_unwrap_recursive") if "src.linters.unwrap_abuse.rust_analyzer.RustUnwrapAnalyzer._find_unwrap_recursive" in repo.funcs else next(f for f in repo.funcs_in("src.linters.unwrap_abuse.rust_analyzer.") if f.name == "_find_unwrap_recursive")
     names = None
     for n in ast.walk(fr.node):
-        if isinstance(n, ast.Compare) and isinstance(n.ops[0], ast.In) and ast.unparse(n.left) == "method_name":
-            names = repo.fold(fr.module, n.comparators[0])
+        if isinstance(n, ast.Compare) and isinstance(n.ops[0], ast.In) and isinstance(n.left, ast.Name):
+            v_ = repo.fold(fr.module, n.comparators[0])
+            if v_ is not UNKNOWN and isinstance(v_, (tuple, list, set, frozenset)) and all(isinstance(x, str) for x in v_):
+                names = v_
     (run.ok(R4, "detected methods", str(names)) if names is not UNKNOWN and names is not None and set(names) == {"unwrap", "expect"} else run.finding(R4, "_find_unwrap_recursive", f"methods:{names}", "the detected method set is not {unwrap, expect}", fr.loc))
     bf = repo.func("src.linters.unwrap_abuse.linter._build_violation_for_call")
     first_if = next((n for n in bf.node.body if isinstance(n, ast.If)), None)
